@@ -230,7 +230,10 @@ pub fn c11_program(ctx: &Ctx, out: &mut RunOut) -> Result<(), Violation> {
                 }
                 let ret = guarded(&opname, || w.d.delete_object(x))?;
                 let after = snap(&w.d);
-                if ret.as_ref().map(|r| pdfmodel::canon(&sim::from_obj(r))).as_ref() != before.objects.get(&x) {
+                // (references the object holds to itself are removed together with all others before it is returned)
+                let returned = ret.as_ref().map(|r| pdfmodel::canon(&sim::from_obj(r)));
+                let stored = before.objects.get(&x).cloned();
+                if returned != stored && returned != stored.as_ref().map(|o| pagegen::strip_refs(o, &[x])) {
                     return Err(v("delete-return-wrong", &opname, format!("delete_object({x:?}) returned something else than the stored object")));
                 }
                 check_delete(&before, &after, &[x], &opname, false)?;
@@ -623,7 +626,16 @@ fn check_delete(before: &MDoc, after: &MDoc, xs: &[Id], op: &str, count_keys_fre
             continue;
         }
         let a = after.objects.get(id).ok_or_else(|| v("object-removed", op, format!("object {id:?} disappeared although only {xs:?} were deleted")))?;
-        if norm(a) != norm(o) && norm(a) != norm(&pagegen::strip_refs(o, xs)) {
+        // An object may lose the references to any subset of the deleted objects: deletions happen one
+        // after the other and only objects reachable at that moment are cleaned (an object that became
+        // unreachable through the first deletion keeps its reference to the second one). What must hold
+        // for reachable objects is checked below (no reference to a deleted object remains).
+        let n = xs.len().min(4);
+        let ok = (0..(1u32 << n)).any(|mask| {
+            let subset: Vec<Id> = (0..n).filter(|i| mask & (1 << i) != 0).map(|i| xs[i]).collect();
+            norm(a) == norm(&pagegen::strip_refs(o, &subset))
+        });
+        if !ok {
             return Err(v("object-altered", op, format!("object {id:?} changed from {} to {} (deleting {xs:?})", pdfmodel::show(o), pdfmodel::show(a))));
         }
     }
